@@ -1636,7 +1636,9 @@ class BaseLoss(object):
         dealing with estimating the initial value as well
         """
         x0 = ode_utils.check_array_type(x0)
-        self._x0 = np.copy(x0)
+        # always floating point: with integer initial states (counts) an integer
+        # copy would truncate the initial values assigned later by _unrollState
+        self._x0 = np.array(x0, dtype=float)
 
     def _setLossType(self):
         """
